@@ -16,6 +16,9 @@ pub enum Case {
     /// a long run of `r` consecutive closures starting `start` days after 2024-01-10 (Sat-Sun mask on top), with the
     /// first `b` business days after the run closed for settlement
     Run { r: i64, start: i64, b: i64 },
+    /// a closure of `r` consecutive days from 1975-01-02 (r > 65 535: longer than a 16-bit day counter), adjusted
+    /// from the days around its two ends and from its middle
+    HugeRun { r: i64 },
 }
 
 pub const SMASKS: [Option<u8>; 5] = [None, Some(0b1100000), Some(0b0110000), Some(0b1000000), Some(0b0111111)];
@@ -237,6 +240,17 @@ pub fn check(case: &Case, idx: u64, acc: &mut Acc) {
                 acc.sample(|| serde_json::to_value(case).unwrap());
             }
         }
+        Case::HugeRun { r } => {
+            let z0 = days_from_civil(1975, 1, 2);
+            let hols: Vec<_> = (0..*r).map(|i| to_ndt(z0 + i)).collect();
+            let c = Cal::new(hols, vec![5, 6]);
+            let bm = Bitmap::from_fn(z0 - 40, z0 + r + 40, |z| (weekday(z) < 5 && !(z >= z0 && z < z0 + r), true));
+            acc.nontrivial();
+            check_rolls(&c, &bm, z0 - 3, z0 + 2, "Cal/huge-run", case, idx, acc);
+            check_rolls(&c, &bm, z0 + r / 2, z0 + r / 2 + 1, "Cal/huge-run", case, idx, acc);
+            check_rolls(&c, &bm, z0 + r - 2, z0 + r + 3, "Cal/huge-run", case, idx, acc);
+            acc.sample(|| serde_json::to_value(case).unwrap());
+        }
         Case::Mask { mask, smask_idx } => {
             let z0 = days_from_civil(2024, 2, 26); // a Monday; the week crosses into March
             let wm: Vec<u8> = (0..7u8).filter(|i| mask & (1 << i) != 0).collect();
@@ -259,6 +273,29 @@ pub fn check(case: &Case, idx: u64, acc: &mut Acc) {
                     (mask & (1 << wd) == 0 && !hol, smask.map_or(true, |sm| sm & (1 << wd) == 0))
                 };
                 let bm = Bitmap::from_fn(lo, hi, model);
+                if hs == 0 {
+                    // dates that carry a time of day (no holidays here: those are matched as whole datetimes): the
+                    // adjustment moves the DAY and keeps the time
+                    let tod = chrono::Duration::seconds(15 * 3600 + 30 * 60);
+                    let uu = smask.map(|sm| UnionCal::new(vec![c.clone()], Some(vec![Cal::new(vec![], (0..7u8).filter(|i| sm & (1 << i) != 0).collect())])));
+                    for z in (z0 - 2)..=(z0 + 8) {
+                        for md in MODS.iter() {
+                            for flag in [false, true] {
+                                if let Some(w) = bm.roll(z, md, flag) {
+                                    acc.eval();
+                                    let d = to_ndt(z) + tod;
+                                    let got = match &uu {
+                                        Some(u) => u.roll(&d, md, flag),
+                                        None => c.roll(&d, md, flag),
+                                    };
+                                    if got != to_ndt(w) + tod {
+                                        acc.violate(&format!("roll/time-of-day/{}{}", mod_name(md), if flag { "/settle" } else { "" }), idx, serde_json::to_value(case).unwrap(), json!({"date": format!("{} 15:30", fmt_day(z)), "want": format!("{} 15:30", fmt_day(w))}), json!(format!("{}", got)));
+                                    }
+                                }
+                            }
+                        }
+                    }
+                }
                 match smask {
                     None => {
                         check_rolls(&c, &bm, z0 - 2, z0 + 8, "Cal/mask", case, idx, acc);
@@ -323,6 +360,9 @@ pub fn cases(tier: Tier) -> Vec<Case> {
             }
         }
     }
+    for r in [65_535i64, 65_536, 65_600] {
+        out.push(Case::HugeRun { r });
+    }
     // closures of more than a year (any scan limit of a year's length would show)
     for r in [365i64, 366, 367, 400, 430, 800] {
         for start in [0i64, 9, 20, 22, 31] {
@@ -355,7 +395,7 @@ pub fn run(ctx: &Ctx, replay_file: Option<String>) -> ! {
          split the N / B days), CalType and, for B-free words, Cal; month boundary after every position 0..W on three \
          anchors (leap Feb->Mar, common Feb->Mar, Dec->Jan); every date of the window +-2, 5 modifiers, both \
          settlement flags. (2) all 14 built-in calendars and 5 named unions over EVERY date 1970-2200 (the piped ones also wrapped in the CalType container over 2015-2035, judged against the named calendar's own predicates). (3) all 127 \
-         week masks x 5 settlement masks x every holiday subset of one week (for an eighth of the subsets also as a union whose two members and two settlement calendars each close only some of the weekdays, in both listing orders). (4) long runs of 12..70 and of 365, 366, 367, 400, 430, 800 consecutive closures \
+         week masks x 5 settlement masks x every holiday subset of one week (the holiday-free ones also with dates that carry a time of day) (for an eighth of the subsets also as a union whose two members and two settlement calendars each close only some of the weekdays, in both listing orders). (4) long runs of 12..70 and of 365, 366, 367, 400, 430, 800 consecutive closures (and, from the days around the ends and the middle only, of 65 535, 65 536 and 65 600) \
          at every alignment against two month ends, with and without settlement closures right after the run. Every adjustment is made through roll(modifier, settlement) and through the named method behind it; the five predicates are checked for mutual consistency on every date. Oracle: linear searches on a bitmap of \
          the calendar's definition (the word / the week masks and holidays) - for the named calendars, of their own \
          is_bus_day / is_settlement: following = first eligible >= d, previous = last eligible \
